@@ -3,9 +3,11 @@ package main
 import (
 	"bytes"
 	"context"
+	"fmt"
 	"os"
 	"os/exec"
 	"path/filepath"
+	"regexp"
 	"strconv"
 	"strings"
 	"sync"
@@ -156,5 +158,129 @@ func solveWithTail(dir, name, body, tail string, toSecs int, needTwo bool) Solve
 			}
 		}
 	}
+	return res
+}
+
+type BatchResult struct {
+	Status []string // per goal: unsat | sat | unknown | timeout | error | none
+	Solver []string
+	Secs   float64
+	Err    string
+}
+
+var goalRe = regexp.MustCompile(`^"?goal (\d+) `)
+
+// solveBatch runs an incremental script (goals in push/pop scopes, tagged by echo) on all solvers.
+func solveBatch(dir, name, body string, n int, toSecs int, needTwo bool) BatchResult {
+	checkSolvers()
+	os.MkdirAll(dir, 0o755)
+	start := time.Now()
+	type one struct {
+		solver string
+		st     []string
+		err    string
+	}
+	ctx, cancel := context.WithCancel(context.Background())
+	defer cancel()
+	ch := make(chan one, len(solvers))
+	running := 0
+	for _, s := range solvers {
+		if !solverAvail[s.name] {
+			continue
+		}
+		running++
+		s := s
+		file := filepath.Join(dir, name+"."+s.name+".smt2")
+		var sb strings.Builder
+		var argv []string
+		switch s.name {
+		case "cvc5":
+			sb.WriteString("(set-logic ALL)\n")
+			argv = []string{"cvc5", "--incremental", "--tlimit-per=" + strconv.Itoa(toSecs*1000), file}
+		default:
+			sb.WriteString("(set-option :timeout " + strconv.Itoa(toSecs*1000) + ")\n")
+			argv = []string{s.name, file}
+		}
+		sb.WriteString(body)
+		if err := os.WriteFile(file, []byte(sb.String()), 0o644); err != nil {
+			ch <- one{solver: s.name, err: err.Error()}
+			continue
+		}
+		go func() {
+			c, cc := context.WithTimeout(ctx, time.Duration(toSecs*n+30)*time.Second)
+			defer cc()
+			cmd := exec.CommandContext(c, argv[0], argv[1:]...)
+			var out bytes.Buffer
+			cmd.Stdout = &out
+			cmd.Stderr = &out
+			_ = cmd.Run()
+			st := make([]string, n)
+			cur := -1
+			errs := ""
+			for _, ln := range strings.Split(out.String(), "\n") {
+				ln = strings.TrimSpace(ln)
+				if m := goalRe.FindStringSubmatch(ln); m != nil {
+					cur, _ = strconv.Atoi(m[1])
+					continue
+				}
+				switch ln {
+				case "sat", "unsat", "unknown", "timeout":
+					if cur >= 0 && cur < n && st[cur] == "" {
+						st[cur] = ln
+					}
+				default:
+					if strings.Contains(ln, "error") && len(errs) < 600 {
+						errs += s.name + ": " + ln + "; "
+					}
+				}
+			}
+			ch <- one{solver: s.name, st: st, err: errs}
+		}()
+	}
+	res := BatchResult{Status: make([]string, n), Solver: make([]string, n)}
+	count := make([]int, n)
+	for i := 0; i < running; i++ {
+		r := <-ch
+		if r.err != "" {
+			res.Err += r.err
+		}
+		for k := 0; k < n && r.st != nil; k++ {
+			s := r.st[k]
+			if s != "sat" && s != "unsat" {
+				if res.Status[k] == "" || res.Status[k] == "none" {
+					if s == "" {
+						s = "none"
+					}
+					res.Status[k] = s
+				}
+				continue
+			}
+			if res.Status[k] == "sat" || res.Status[k] == "unsat" {
+				if res.Status[k] != s {
+					res.Status[k] = "error"
+					res.Err += fmt.Sprintf("SOLVER DISAGREEMENT on goal %d: %s=%s vs %s=%s; ", k, res.Solver[k], res.Status[k], r.solver, s)
+				} else {
+					count[k]++
+				}
+				continue
+			}
+			res.Status[k], res.Solver[k] = s, r.solver
+			count[k] = 1
+		}
+		done := true
+		for k := 0; k < n; k++ {
+			if res.Status[k] != "sat" && res.Status[k] != "unsat" && res.Status[k] != "error" {
+				done = false
+			}
+			if needTwo && count[k] < 2 && res.Status[k] != "error" {
+				done = false
+			}
+		}
+		if done {
+			break
+		}
+	}
+	cancel()
+	res.Secs = time.Since(start).Seconds()
 	return res
 }
